@@ -115,9 +115,33 @@ def report(v, lines, cases, seqs_by_idx):
             v.violation(fail_key(how, cls, c),
                         "%s case %d (%s n=%d m=%s k=%s sa=%d sn=%d) at position %s of sequence %s: %s err=%s tol=%s branch=(%s,%s)" % (
                             how, c["id"], FAMNAME[c["f"]], c["n"], c["m"], c["k"], c["sa"], c["sn"], pos, toks, text, err, tol, m, s),
-                        {"sequence": toks, "position": int(pos), "cases": [cases[int(t.lstrip("u"))] for t in toks[:int(pos) + 1]]})
+                        {"sequence": toks, "position": int(pos), "cases": [cases[int(t.lstrip("u"))] for t in toks]})
         elif l.startswith("XCHECK"):
             raise Infra("harness evaluation of the specification's formula disagrees with TLC's exact value: " + l)
+
+
+def run_replay_file(v, exe, path):
+    """re-execute the call sequences stored in a replay file (written by Verdict.finish) on the current tree"""
+    with open(path) as f:
+        data = json.load(f)
+    cases, seqs = {}, []
+    for viol in data.get("violations", []):
+        r = viol.get("replay") or {}
+        for c in r.get("cases", []):
+            cases[c["id"]] = c
+        if r.get("sequence") and r["sequence"] not in seqs:
+            seqs.append(r["sequence"])
+    if not seqs:
+        raise Infra("no call sequence in replay file " + path)
+    sq = [(i, t) for i, t in enumerate(seqs)]
+    need = set(int(t.lstrip("u")) for s in seqs for t in s)
+    if not need <= set(cases):
+        raise Infra("replay file lacks the case data for %s" % sorted(need - set(cases)))
+    lines = run_replay(exe, [case_line(cases[c]) for c in sorted(cases)], sq, 4, 900)
+    report(v, lines, cases, {i: t for i, t in sq})
+    v.cov.update({"evaluations": len(seqs), "distinct_nontrivial": len(seqs), "rule": "sequences of the replay file " + os.path.basename(path)})
+    v.sample({"sequence": seqs[0]})
+    return "exploration"
 
 
 def run(v, tier, seed, replay):
@@ -127,6 +151,8 @@ def run(v, tier, seed, replay):
     if "expm.branch" not in open(src).read():
         raise Infra("hook missing in %s: apply /verif/patches/expm/hook-expm-branch.diff (SQUIDS_VERIF_EVENT(\"expm.branch\",0,0,m,s))" % src)
     exe = vlib.build_harness("expm_replay", "plain")
+    if replay:
+        return run_replay_file(v, exe, replay)
 
     # --- 1. catalogue
     cfg = write_cfg("C07_cat", dims=tset(dims), maxlen=1, withvalues="TRUE", tier=0 if quick else 1, casesel="{}",
@@ -206,7 +232,7 @@ def run(v, tier, seed, replay):
     maxlen = 3 if quick else 4
     cfg2 = write_cfg("C07_seq", dims=tset(dims), maxlen=maxlen, withvalues="FALSE", tier=0 if quick else 1, casesel=tset(sel),
                      b3=tset(bsets[3]), b5=tset(bsets[5]), b7=tset(bsets[7]), b9=tset(bsets[9]), b13=tset(bsets[13]), invs="LawHistoryFree")
-    res2 = vlib.tlc("ExpFamilies", cfg2, workers=8, timeout=1500, keep_out=False)
+    res2 = vlib.tlc("ExpFamilies", cfg2, workers=8, timeout=1500, keep_out=False, coverage=False)
     vlib.tlc_ok(res2, "ExpFamilies call sequences")
     if res2.violated:
         raise Infra("specification law violated in ExpFamilies (sequences): %s\n%s" % (res2.violated, res2.out[-3000:]))
